@@ -96,8 +96,10 @@ class Report:
 
     def finish(self, known: dict, evidence_dir: str) -> int:
         """Write evidence, print the verdict lines, return the exit code."""
-        self.check_floors()
         fs = self.findings()
+        if not fs:
+            # floors guard against vacuous passes; with findings the run is a violation anyway
+            self.check_floors()
         known_keys = {k["key"]: k for k in known.get("known", []) if k.get("property") == self.prop}
         new = [f for f in fs if f.key() not in known_keys]
         old = [f for f in fs if f.key() in known_keys]
